@@ -70,7 +70,8 @@ theorem C10_failed_call_keeps_tree (r : Router) (L : List LiveT) (h : Live r L) 
     (hfail : match c with
       | .insert t d => ∃ e, r.insert t d = .error e
       | .delete t => ∃ e, (r.delete t).1 = .error e
-      | .constraint n ty => ∃ e, r.constraint n ty = .error e) :
+      | .constraint n ty => ∃ e, r.constraint n ty = .error e
+      | .clone => True) :
     (r.step c).display = r.display := by
   cases c with
   | insert t d => obtain ⟨e, he⟩ := hfail; simp [Router.step, he]
@@ -79,6 +80,7 @@ theorem C10_failed_call_keeps_tree (r : Router) (L : List LiveT) (h : Live r L) 
     simp only [Router.step]
     rw [C10_delete_error_atomic r L h t e he]
   | constraint n ty => obtain ⟨e, he⟩ := hfail; simp [Router.step, he]
+  | clone => exact Router.clone_display r
 
 /-- **Printing half of the round trip.** After a successful `insert(t, d)`, `delete(t)` restores the printed tree. -/
 theorem C10_insert_then_delete_restores_tree (r r' : Router) (L : List LiveT) (h : Live r L) (t : Bytes) (d : Nat)
